@@ -27,7 +27,10 @@ pub fn generate(prop: &str, tier: &str, seed: u64, out: &str, shards: usize, his
                 crate::checks2::replay_c05(&asm, &mut mach, &mut sh, h);
             }
         }
-        "C10" | "C11" => crate::checks2::gen_shapes(&asm, &mut mach, &mut rng, &mut sh, histories.expect("shape file"), thorough),
+        "C10" | "C11" => {
+            crate::checks2::gen_shapes(&asm, &mut mach, &mut rng, &mut sh, histories.expect("shape file"), thorough);
+            crate::checks3::examples_spelling(&asm, &mut rng, &mut sh);
+        }
         "C15" => {
             crate::checks2::gen_fuzz(&mut sh, seed, if thorough { 200_000 } else { 12_000 }, out);
             crate::checks3::gen_c15(&mut rng, &mut sh, out, thorough);
